@@ -316,8 +316,11 @@ def tasks(tier):
     ts = [Task('classify', t_classify, extra=x, overrides=dict(ov))]
     for pt in ('long', 'short'):
         # nonlinear identities: a generous per-query budget (an idle machine needs about 2 s; verdicts must not flip under load)
-        ts.append(Task(f'ledger.{pt}.open', t_ledger(pt, 'open'), extra=dict(x), overrides=dict(ov), prove_timeout_ms=240000))
-        ts.append(Task(f'ledger.{pt}.fill', t_ledger(pt, 'fill'), extra=dict(x), overrides=dict(ov), prove_timeout_ms=240000))
+        # products of symbolic prices and quantities: every solver call of these tasks runs in a forked child with a hard deadline, and
+        # proofs race four seeds (with VERIF_SEED=1 z3's nonlinear procedure never returned on one path and ignored its timeout)
+        xl = dict(x, fork_solver=True)
+        ts.append(Task(f'ledger.{pt}.open', t_ledger(pt, 'open'), extra=dict(xl), overrides=dict(ov), prove_timeout_ms=120000))
+        ts.append(Task(f'ledger.{pt}.fill', t_ledger(pt, 'fill'), extra=dict(xl), overrides=dict(ov), prove_timeout_ms=120000))
         ts.append(Task(f'dispatch.{pt}', t_dispatch(pt), extra=dict(x), overrides=dict(ov)))
         ts.append(Task(f'trade.{pt}', t_trade_fields(pt), extra=dict(x), overrides=dict(ov)))
     for kind in ('futures', 'spot'):
